@@ -129,8 +129,7 @@ class MaskFlow(MustAnalysis):
                 for a, s in states:
                     if s == "raw":
                         self._report(n, a, state, "estimator fit" if is_fit else "call mixing masked and unmasked arrays")
-                if is_fit:
-                    self.sinks += 1
+                self.sinks += 1
 
     def _is_estimator_fit(self, n):
         f = n.func
